@@ -68,3 +68,12 @@ class LSub3(LSub):
     def __init__(self, k: int = 5):
         super().__init__()
         self.k = k
+
+
+# --- plain functions for Callable-typed arguments (vf/gen/kinds.py) -------------------------------------------------------
+def fn_a(x: int) -> int:
+    return x
+
+
+def fn_b(x: int) -> int:
+    return x + 1
